@@ -17,7 +17,7 @@ TIERS = {
 
 OPTS = {
     "C01": {"categories": [("ok", 0.35), ("undefined", 0.1), ("conflict", 0.55)], "p_curved": 0.0, "jitters": [0.0, 0.05, 0.15], "p_path": 0.2},
-    "C02": {"categories": [("ok", 0.6), ("undefined", 0.3), ("conflict", 0.1)], "p_curved": 0.0, "p_multi_source": 0.6, "p_path": 0.4,
+    "C02": {"categories": [("ok", 0.6), ("undefined", 0.3), ("conflict", 0.1)], "p_curved": 0.0, "p_multi_source": 0.6, "p_path": 0.4, "p_infeasible": 0.08,
             "p_same_expansion": 0.5, "jitters": [0.0, 0.05, 0.15]},
     "C04": {"categories": [("ok", 0.95), ("undefined", 0.0), ("conflict", 0.05)], "p_curved": 0.12, "p_multi_source": 0.3, "p_path": 0.25,
             "p_same_expansion": 0.5, "jitters": [0.05, 0.15, 0.25]},
@@ -39,6 +39,9 @@ def build(seed: int, pid: str, ncfg: int) -> Tuple[Dict[str, Any], List[Dict[str
     geo = P.gen_assembly(rs.sub("geo"), opts)
     geo = P.add_curved(rs.sub("curved"), geo, opts)
     geo = P.place_chops(rs.sub("chops"), geo, opts)
+    if pid == "C01" and rs.chance(opts.get("p_rewrite", 0.3)):
+        mr = rs.sub("rewrite")
+        geo["rewrite"] = [{"index": mr.randrange(8), "d": [round(mr.uniform(-0.22, 0.22), 4) for _ in range(3)]} for _ in range(mr.randint(1, 3))]
     programs = [P.make_program(geo, h64(seed, "cfg", c) % (1 << 31), identity=(c == 0)) for c in range(ncfg)]
     return geo, programs
 
@@ -72,7 +75,33 @@ def evaluate(pid: str, program: Dict[str, Any], scheds: List[Dict[str, Any]], pr
             parsed = P.parse_result(res) if res.outcome == "ok" else None
         except Exception as e:
             vs.append(P.Violation("C06", "unparsable", repr(e)))
+        second = None
+        if len(res.writes) >= 2:
+            # primary oracles look at the first write; the second one (after vertex moves)
+            # must still be internally consistent (C01 holds whenever writing succeeds)
+            second = res.writes[1]
+            res.files = dict(res.files)
+            res.files[P.DICT_PATH] = res.writes[0][0]
+            res.live = res.writes[0][1]
+            try:
+                parsed = P.parse_result(res)
+            except Exception as e:
+                vs.append(P.Violation("C06", "unparsable", repr(e)))
         vs += P.oracle_counts(program, asm, names, verdict, res, parsed)
+        if second is not None and second[0] is not None:
+            stats["second_writes_checked"] = stats.get("second_writes_checked", 0) + 1
+            try:
+                from .. import foam as _foam
+                parsed2 = _foam.parse_blockmeshdict(second[0])
+                res2 = P.RunResult()
+                res2.outcome, res2.live = "ok", second[1]
+                v2 = P.oracle_counts(program, asm, names, verdict, res2, parsed2)
+                for v in v2:
+                    v.detail = "second write after vertex moves: " + v.detail
+                    v.key = v.key + ":second-write"
+                vs += v2
+            except Exception as e:
+                vs.append(P.Violation("C01", "second-write-unparsable", repr(e)))
         vs += P.oracle_outcome(program, verdict, res, pre_files)
         v4, st4 = ([], {}) if shapes else P.oracle_sizes(program, asm, names, verdict, res, parsed)
         vs += v4
@@ -135,7 +164,9 @@ def task(seed: int, arg: Dict[str, Any]) -> Dict[str, Any]:
     base_class = None
     for ci, program in enumerate(programs):
         scheds = schedules(seed, ci, 2 if program.get("meta", {}).get("shapes") else k)
-        ev = evaluate(pid, program, scheds)
+        # sometimes a dictionary from an earlier run is already there: a failed write must leave it alone
+        pre = {P.DICT_PATH: "// blockMeshDict written by an earlier run\n"} if (pid == "C02" and h64(seed, "pre") % 3 == 0) else None
+        ev = evaluate(pid, program, scheds, pre)
         out["runs"] += len(ev["runs"])
         for kk, v in ev["stats"].items():
             out["stats"][kk] = out["stats"].get(kk, 0) + v
@@ -148,6 +179,8 @@ def task(seed: int, arg: Dict[str, Any]) -> Dict[str, Any]:
         for v in ev["violations"]:
             v = dict(v)
             v["replay"] = {"program": program, "schedules": [scheds[0], scheds[v["sched_index"]]] if v["class"] == "schedule-dependent-outcome" else [scheds[v["sched_index"]]]}
+            if pre:
+                v["replay"]["pre_files"] = pre
             out["violations"].append(v)
         # across configurations: same outcome class, same count for every block direction
         r0 = ev["runs"][0]
